@@ -82,7 +82,10 @@ def build_thm(prop):
         SRC_REPORT.update(srcfacts.write())
     except Exception as e:      # the translator itself failed on the current source: the obligations cannot be re-checked
         return False, 'lib/srcfacts.py could not read the current source: %r' % (e,)
-    rc, out = sh(['lake', 'build', 'Pocket.Thm.' + prop], cwd=LEAN)
+    mods = ['Pocket.Thm.' + prop]
+    if os.path.exists(os.path.join(LEAN, 'Pocket', 'Thm', prop + 'Spec.lean')):
+        mods.append('Pocket.Thm.%sSpec' % prop)     # the property read on the abstract specification (a module of its own where imports would cycle)
+    rc, out = sh(['lake', 'build'] + mods, cwd=LEAN)
     if rc != 0:
         # lead with the errors (the log is mostly linter warnings of modules that did build)
         ls = out.split('\n')
@@ -139,6 +142,8 @@ def audit(prop, theorems):
     path = os.path.join(CACHE, 'audit', prop + '.lean')
     with open(path, 'w') as f:
         f.write('import Pocket.Thm.%s\n' % prop)
+        if os.path.exists(os.path.join(LEAN, 'Pocket', 'Thm', prop + 'Spec.lean')):
+            f.write('import Pocket.Thm.%sSpec\n' % prop)
         for t in theorems:
             f.write('#print axioms %s\n' % t)
     rc, out = sh(['lake', 'env', 'lean', path], cwd=LEAN)
